@@ -60,6 +60,9 @@ def families(quick):
     # binned objects exactly on bin edges (outer and inner), both closed conventions
     F["on_edges_right"] = sky.SkyConfig(nref=2, nunk=2, zcells="{1, 3, 5}", weights="{1}", slots="{0, 1, 3, 8, 9}", rmin=(2.5,), rmax=(12.5,))
     F["on_edges_left"] = sky.SkyConfig(nref=2, nunk=2, zcells="{1, 3, 5}", weights="{1}", slots="{0, 1, 3, 8, 9}", rmin=(2.5,), rmax=(12.5,), closed="left")
+    # physical scales in a curved cosmology (angular diameter distance is not comoving distance / (1 + z))
+    F["physical_curved"] = sky.SkyConfig(nref=2, nunk=2, zcells="{2, 4}", weights="{1}", unit="Mpc", edges=(0.5, 0.8, 1.1), rmin=(40.0,), rmax=(261.0,),
+                                         slots="{0, 1, 3, 4, 6, 8, 9}", cosmology="closed")     # rmax: 10.11 deg at z = 0.65 (9.89 deg with D_C/(1+z))
     if not quick:
         F["angular_big"] = sky.SkyConfig(nref=3, nunk=3, zcells="{2, 4}", weights="{1}", rmin=(2.5,), rmax=(12.5,))
         F["comoving"] = sky.SkyConfig(nref=3, nunk=2, zcells="{2, 4}", weights="{1}", unit="Mpc/h", edges=(0.3, 0.6, 0.9), rmin=(30.0,), rmax=(150.0,))
@@ -71,7 +74,9 @@ def compare_counts(ctx, prop, fam, sc, exp, obs, emb, extra_key=""):
     ok = True
     nb, nc = sc.nb, len(sc.centres)
     linked = {(int(i), int(j)) for i, j in exp["linked"]}
-    for kind, exp_arr, obs_arr in (("cross", exp["cross"], obs.get("cross")), ("cross_dr", exp["cross"], obs.get("cross_dr")), ("auto", exp["auto"], obs.get("auto"))):
+    for kind, exp_arr, obs_arr in (("cross", exp["cross"], obs.get("cross")), ("cross_dr", exp["cross"], obs.get("cross_dr")),
+                                   ("cross_rd", exp["cross"], obs.get("cross_rd")), ("cross_rr", exp["cross"], obs.get("cross_rr")),
+                                   ("auto", exp["auto"], obs.get("auto"))):
         if obs_arr is None:
             continue
         for s in range(len(sc.rmin)):
@@ -107,6 +112,12 @@ def compare_counts(ctx, prop, fam, sc, exp, obs, emb, extra_key=""):
                     ctx.violation(f"{prop}|crosscorrelate|{fam}|sum_weights2_differs" + extra_key,
                                   dict(family=fam, bin=b, patch=i, expected=exp["sumw2"][i], observed=obs["sw2"][b][i]))
                     return False
+                for which in ("sw1_rd", "sw1_rr"):      # the reference randoms are binned by the same rule as the reference sample
+                    if which in obs and obs[which][b][i] != exp["binw"][b][i]:
+                        ctx.violation(f"{prop}|crosscorrelate|{fam}|sum_weights1_of_reference_randoms_differs" + extra_key,
+                                      dict(family=fam, member=which[-2:], bin=b, patch=i, expected=exp["binw"][b][i], observed=obs[which][b][i],
+                                           ref=[dict(o_) for o_ in exp["ref"]]))
+                        return False
     return ok
 
 
